@@ -97,14 +97,17 @@ package sqlittle
 //@   ensures-on-panic [released] !lk_shared && !lk_pending
 
 // Columns: the names exactly as the definition read in this call spells them, in definition order.
+//@ ghost columns_calls bv64
 //@ func (*sqlittle.DB).Columns
 //@   props C06 C08 C10
+//@   ghost-exit columns_calls = columns_calls + 1
+//@   ensures [counted] columns_calls == old(columns_calls) + 1
 //@   ensures-before-exit [current-schema] r1 == nil ==> schema_calls == old(schema_calls) + 1
 //@   ensures-before-exit [names] r1 == nil ==> len(r0) == len(deref(last_schema, "*db.Schema").Columns) && (forall k int :: 0 <= k && k < len(r0) ==> r0[k] == deref(last_schema, "*db.Schema").Columns[k].Column)
 //@   ghost-exit schema_calls = old(schema_calls)
 //@   ghost-exit last_schema = old(last_schema)
 //@   loop 1 invariant [names] len(cols) == $i && (forall k int :: 0 <= k && k < $i ==> cols[k] == s.Columns[k].Column) && (reg(cols) == 0 || fresh(cols))
-//@   modifies * -M:S_sqlittle_columnIndex lk_shared lk_pending peer_state cc_now hdr_valid hdr_ps hdr_cookie jr_pos
+//@   modifies * -M:S_sqlittle_columnIndex lk_shared lk_pending peer_state cc_now hdr_valid hdr_ps hdr_cookie jr_pos columns_calls
 //@   requires db != nil && !lk_shared && !lk_pending
 //@   ensures [released] !lk_shared && !lk_pending
 //@   ensures [yield] peer_stable && old(peer_state) >= 3 ==> r1 != nil
